@@ -10,7 +10,8 @@ CFG = dict(
         "Props.C04.assign_offsets_reported", "Props.C04.success_offset_is_log_position", "Props.C04.handle_block_table",
         "Props.C04.dedup_success_offset", "Props.C04.dedup_success_offset_partial",
         "Bridge.C04.handleSuccessCases_eq", "Bridge.C04.reqVersion_eq", "Bridge.C04.lastOffsetDelta_eq",
-        "Bridge.C04.renumber_eq_gen", "Bridge.C04.wrapper_eq", "Bridge.C04.legacy_message_eq"],
+        "Bridge.C04.renumber_eq_gen", "Bridge.C04.wrapper_eq", "Bridge.C04.legacy_message_eq",
+        "Bridge.C04.assignOffsets_eq_gen", "Bridge.C04.handleBlock_eq_block", "Bridge.C04.handleBlock_eq_missing"],
     n={"quick": 150, "thorough": 1500, "search": 150},
     thorough_seeds=3,
     level="proof",
@@ -33,13 +34,13 @@ CFG["manifest"] = dict(
          "for msgs[i]; decision table of handleSuccess per block. The ErrDuplicateSequenceNumber branch is proved at full strength for the variant that assigns offsets; "
          "the pinned tree reports such successes without offsets (partial theorem + counter-example, known finding). "
          "Bridge: request-version selection, LastOffsetDelta, OffsetDelta / inner-offset assignments, wrapper format+timestamp gate, legacy message format gate and the "
-         "switch labels of handleSuccess are re-translated from /repo on every run and proved equal to the model. "
+         "switch labels of handleSuccess, and the whole body of the closure handleSuccess runs per partition set (verdict per block incl. `msg.Offset = block.Offset + int64(i)` "
+         "and the log-append-time override) are re-translated from /repo on every run and proved equal to the model. "
          "Correspondence + oracle: generated batches (nil/empty/large keys and values, header lists, timestamps) x 9 releases x none/gzip/snappy/lz4/zstd (+levels) x 1..400 messages "
          "over several partitions go through the real produceSet.add/buildRequest, the real framed encode and the real decodeRequest; decoded content must equal the submitted "
          "bytes (incl. nil-ness) in order with nothing added; a simulated log appends the decoded records at bases up to 2^62; the real brokerProducer.handleSuccess "
          "(stub parent) must report for every success the log position holding exactly that message.",
-    note="Trusted: Lean kernel; translator tools/extract + GoSem.lean; harness/line protocol. `msg.Offset = block.Offset + int64(i)` is inside a closure the translator does not enter: "
-         "tied by executing the real handleSuccess, not by a bridge obligation. Compression libraries are exercised, not modelled. Not covered here: partitioner choice (C17), "
+    note="Trusted: Lean kernel; translator tools/extract + GoSem.lean; harness/line protocol. Compression libraries are exercised, not modelled. Not covered here: partitioner choice (C17), "
          "offsets of successes produced by whole-pipeline runs with retries/deduplication (pipeline harness).",
     technique="Lean 4 proof (induction over add sequences) + regenerated bridge obligations + differential correspondence through real encode/decode + simulated log oracle",
 )
